@@ -1,5 +1,5 @@
 From Coq Require Import List NArith Arith.
-From SK Require Import lib.LGraph lib.Mono model.C11_Model proof.C11_Aut proof.C11_WL proof.C11_Dedup proof.C11_Main proof.C11_Comp proof.C11_VF2 proof.C11_Vocab proof.C11_Sig proof.C11_Anchor model.C11_State proof.C11_StateProof model.C11_Partial proof.C11_PartialProof proof.C11_PruneClass.
+From SK Require Import lib.LGraph lib.Mono model.C11_Model proof.C11_Aut proof.C11_WL proof.C11_Dedup proof.C11_Main proof.C11_Comp proof.C11_VF2 proof.C11_Vocab proof.C11_Sig proof.C11_Anchor model.C11_State proof.C11_StateProof model.C11_Partial proof.C11_PartialProof proof.C11_PruneClass proof.C11_WLPart.
 Import ListNotations.
 
 (** Vocabulary (definitions in proof/C11_Aut.v, written out here for the reader):
@@ -181,6 +181,19 @@ Theorem C11_wl_never_splits :
     (forall o u v, In o (wl_orbits (wl fn fe g k)) -> In u o -> same_orbit fn fe g u v -> In v o).
 Proof. exact wl_never_splits_all. Qed.
 Print Assumptions C11_wl_never_splits.
+
+(** The estimated orbits themselves (round 3): the colour classes partition the node set, and a class is exactly the set
+    of nodes with one colour. *)
+Theorem C11_wl_partition :
+  forall (fn : nlab -> N) (fe : elab -> N) (g : graph) (k : nat),
+    NoDup (node_ids g) ->
+    let O := wl_orbits (wl fn fe g k) in
+    (forall u, In u (node_ids g) -> exists o, In o O /\ In u o) /\
+    (forall o u, In o O -> In u o -> In u (node_ids g)) /\
+    (forall o1 o2 u, In o1 O -> In o2 O -> In u o1 -> In u o2 -> o1 = o2) /\
+    (forall o u v, In o O -> In u o -> (In v o <-> In v (node_ids g) /\ col (wl fn fe g k) v = col (wl fn fe g k) u)).
+Proof. exact wl_orbits_partition. Qed.
+Print Assumptions C11_wl_partition.
 
 (** The premise [wf g] is decided by the model function [wfb], which the correspondence evaluates on every graph. *)
 Theorem C11_wfb_sound : forall g : graph, wfb g = true -> wf g.
